@@ -101,7 +101,7 @@ func (x *Xlat) load(st *State, p Place) *Term {
 		return v
 	case PElem:
 		es := x.tm.SortOf(p.typ)
-		h := x.get(st, elemsKey(es), elemsSort(es))
+		h := x.get(st, x.tm.ElemsKey(p.typ), elemsSort(es))
 		v := x.atTerm(h, p.sl, p.idx, es)
 		if x.nn && x.ctx.noDefine == 0 && es == SRef && x.graphListProv(p.sl, 0) {
 			st.assume(Not(Eq(v, TNull))) // A11: the graph's node, edge, layer and adjacency lists hold no nil
@@ -207,7 +207,7 @@ func (x *Xlat) store(st *State, out *Outcomes, p Place, v *Term, pos token.Pos) 
 		x.set(st, key, Sto(h, p.ref, x.coerce(v, p.typ)))
 	case PElem:
 		es := x.tm.SortOf(p.typ)
-		key := elemsKey(es)
+		key := x.tm.ElemsKey(p.typ)
 		h := x.get(st, key, elemsSort(es))
 		arr := SArr(p.sl)
 		inner := Sel(h, arr)
@@ -893,7 +893,7 @@ func (x *Xlat) compositeLit(st *State, fr *Frame, out *Outcomes, e *ast.Composit
 		}
 		a := x.allocArr(st)
 		es := x.tm.SortOf(u.Elem())
-		key := elemsKey(es)
+		key := x.tm.ElemsKey(u.Elem())
 		h := x.get(st, key, elemsSort(es))
 		inner := Sel(h, a)
 		var vals []*Term
